@@ -73,10 +73,10 @@ def gen_case(rng, idx, backend="dummy", start_method="fork", max_ops=60):
         elif u < 0.86:
             ops.append(["reset"])
         elif u < 0.92:
-            ops.append(["seed", rng.randint(0, 1000)])
+            ops.append(["seed", rng.choice([None, rng.randint(0, 1000), rng.randint(0, 1000)])])   # None: VecEnv.seed() draws the seed itself
         else:
             ops.append(gen_options(rng, n))
-    return {"obs_kind": obs_kind, "act_kind": act_kind, "n": n, "scripts": scripts, "ops": ops,
+    return {"obs_kind": obs_kind, "act_kind": act_kind, "n": n, "scripts": scripts, "ops": ops, "actions_as_list": rng.random() < 0.2,
             "backend": backend, "start_method": start_method, "id": idx}
 
 
@@ -173,6 +173,8 @@ def run_impl(case, ops=None):
                 trace.append(["reset", _dec_batch(space, obs, n), _rinfos(venv)])
             elif op[0] == "step":
                 acts = np.stack([action_value(case["act_kind"], a) for a in op[1]])
+                if case.get("actions_as_list"):
+                    acts = list(acts)      # a plain list of per-env actions instead of an array
                 obs, rews, dones, infos = venv.step(acts)
                 tags = _dec_batch(space, obs, n)
                 outs = []
@@ -185,12 +187,22 @@ def run_impl(case, ops=None):
                 ok_types = (np.asarray(dones).dtype == np.bool_ and len(rews) == n and len(dones) == n and len(infos) == n)
                 trace.append(["step", outs, _rinfos(venv), bool(ok_types)])
             elif op[0] == "seed":
-                trace.append(["seed", list(venv.seed(op[1]))])
+                ret = list(venv.seed(op[1]))
+                if op[1] is None:
+                    case.setdefault("_drawn", {})[len(trace)] = int(ret[0])     # oracle input: the seed VecEnv.seed() drew
+                trace.append(["seed", ret])
             elif op[0] == "set_options_all":
-                venv.set_options(opt_dict(op[1], empty_as_none=(op[1] is None and len(trace) % 2 == 0)))
+                d = opt_dict(op[1], empty_as_none=(op[1] is None and len(trace) % 2 == 0))
+                venv.set_options(d)
+                if d:
+                    d["k"] = -777       # set_options must have copied: later changes by the caller are not seen
                 trace.append(["none"])
             elif op[0] == "set_options_list":
-                venv.set_options([opt_dict(o) for o in op[1]])
+                lst = [opt_dict(o) for o in op[1]]
+                venv.set_options(lst)
+                for d in lst:
+                    if d:
+                        d["k"] = -777
                 trace.append(["none"])
             else:
                 raise ValueError(op)
@@ -221,8 +233,9 @@ def oracle(case, impl, ops=None):
         for k, (op, tr) in enumerate(zip(ops, impl["trace"])):
             where = f"op {k} ({op[0]}) env {i}"
             if op[0] == "seed":
-                pend_seed = op[1] + i
-                if tr[1][i] != pend_seed:
+                base = op[1] if op[1] is not None else tr[1][0]      # seed(None): the VecEnv draws the base seed itself
+                pend_seed = base + i
+                if not isinstance(tr[1][i], int) or tr[1][i] != pend_seed:
                     probs.append(("oracle-seed-return", f"{where}: seed() returned {tr[1][i]} expected {pend_seed}"))
             elif op[0] == "set_options_all":
                 pend_opt = op[1]
@@ -286,17 +299,18 @@ def oracle(case, impl, ops=None):
 
 # ---------------------------------------------------------------- model
 
-def coq_ops(ops):
+def coq_ops(ops, drawn=None):
     from harness.common import coq_list, coq_option, coq_Z
 
     out = []
-    for op in ops:
+    drawn = drawn or {}
+    for k, op in enumerate(ops):
         if op[0] == "reset":
             out.append("VReset")
         elif op[0] == "step":
             out.append(f"VStep {coq_list(op[1], coq_Z)}")
         elif op[0] == "seed":
-            out.append(f"VSeed {coq_Z(op[1])}")
+            out.append(f"VSeed {coq_Z(op[1] if op[1] is not None else drawn.get(k, 0))}")
         elif op[0] == "set_options_all":
             out.append(f"VSetOptionsAll {coq_option(op[1], coq_Z)}")
         elif op[0] == "set_options_list":
@@ -308,7 +322,7 @@ def model_expr(case, ops=None):
     from harness import scripted_envs as se
 
     ops = case["ops"] if ops is None else ops
-    return f"run_scripted [{'; '.join(se.coq_script(s) for s in case['scripts'])}] {coq_ops(ops)}"
+    return f"run_scripted [{'; '.join(se.coq_script(s) for s in case['scripts'])}] {coq_ops(ops, case.get('_drawn'))}"
 
 
 def _opt(x):
@@ -525,8 +539,10 @@ def run_dummy_calls_stream(chk, n_cases):
                 venv = Pass(venv)
             try:
                 tr = []
-                for call in c["calls"]:
+                for kk, call in enumerate(c["calls"]):
                     res = c02.do_call(venv, c, call)
+                    if call[0] == "seed" and call[1] is None:
+                        c.setdefault("_drawn", {})[kk] = int(res["ret"][0])
                     if call[0] in ("reset", "step") and isinstance(venv, VecEnvWrapper):
                         res["reset_infos"] = venv.unwrapped.reset_infos
                     tr.append(c02.decode_call(c, venv, call, res))
@@ -660,6 +676,26 @@ def run_envutil_stream(chk, n_cases):
                 stats["unwrap"] += 1
     finally:
         shutil.rmtree(tmp, ignore_errors=True)
+    # fixed checks of two documented constructor paths
+    from stable_baselines3.common.vec_env import DummyVecEnv
+
+    one = se.ScriptedEnv(script)
+    try:
+        DummyVecEnv([lambda: one, lambda: one])
+        chk.violation("oracle-dummyvecenv-accepts-one-instance-twice", "DummyVecEnv built from two functions returning the same environment object did not raise ValueError",
+                      {"check": "same instance"}, found_input=True)
+    except ValueError:
+        stats["same_instance_rejected"] = 1
+    with warnings.catch_warnings():
+        warnings.simplefilter("ignore")
+        venv = make_vec_env("CartPole-v1", n_envs=2, seed=7, start_index=1)       # the registered-id path (gym.make)
+        try:
+            ok_id = all(is_wrapped(e, Monitor) for e in venv.envs) and list(venv._seeds) == [7, 8] and venv.num_envs == 2
+        finally:
+            venv.close()
+    stats["registered_id_path"] = int(ok_id)
+    if not ok_id:
+        chk.violation("oracle-make-vec-env-registered-id", "make_vec_env('CartPole-v1', n_envs=2, seed=7): not monitored or seeds not [7, 8]", {"check": "registered id"}, found_input=True)
     vals = common.coq_eval_many("C01c", ENVUTIL_HEADER, exprs, shard=200, procs=4)
     for (kind, case, got, ok), v in zip(expected, vals):
         if kind == "make_vec_env":
